@@ -481,6 +481,7 @@ def generate(spec_path, repo, vacuity=False):
     with open(spec_path, encoding="utf-8") as f:
         tl = f.read().split("\n")
     out = []
+    consts_done = {}
     report = {"items": [], "changed_vs_contract_time": [], "substitutions": [], "dropped": [
         "doc comments and attributes on extracted type definitions (#[derive] replaced as listed)",
         "whitespace: body braces of contracted fns/loops moved to their own line"]}
@@ -581,6 +582,15 @@ def generate(spec_path, repo, vacuity=False):
                 elif st.startswith(WR):
                     fs = fs[:len(fs) - len(st)] + st[len(WR):].lstrip(" ")
                 out.append(indent + fs)
+            # module-level constants the function refers to are sliced from the same file and emitted once
+            for cname in sorted({t.text for t in rl.code_tokens(raw) if t.kind == "ident" and re.fullmatch(r"[A-Z][A-Z0-9_]{2,}", t.text)}):
+                if cname in consts_done:
+                    continue
+                cm = re.search(r"^(?:pub(?:\([a-z]+\))?\s+)?const\s+%s\s*:[^=;]+=[^;]+;" % re.escape(cname), read_repo(repo, rel), re.M)
+                if cm:
+                    # inside verus! a const's reference type needs its (implied) 'static lifetime spelled out
+                    consts_done[cname] = re.sub(r"(:\s*)&(?!')", r"\1&'static ", cm.group(0), count=1)
+                    report["items"].append({"item": "const " + cname, "file": rel, "sha256_16": sha(cm.group(0)), "mode": "verbatim module-level constant referenced by " + path})
             report["items"].append({
                 "item": ("region of " if is_region else "fn ") + path, "file": rel, "sha256_16": sha(raw),
                 "mode": "statement region wrapped as fn (wrapper lines from overlay)" if is_region else "verbatim fn",
@@ -593,6 +603,11 @@ def generate(spec_path, repo, vacuity=False):
             continue
         out.append(l)
         i += 1
+    if consts_done:
+        for k, l in enumerate(out):
+            if l.strip().startswith("verus!") and l.strip().endswith("{"):
+                out = out[:k + 1] + ["// module-level constants referenced by the extracted functions (verbatim from /repo)"] + list(consts_done.values()) + out[k + 1:]
+                break
     text = "\n".join(out) + "\n"
     report["trusted_scan"] = trusted_scan(text)
     return text, report
